@@ -12,6 +12,7 @@ import (
 	"encoding/json"
 	"fmt"
 	"os"
+	"sort"
 	"strings"
 	"sync"
 	"testing"
@@ -44,6 +45,7 @@ type vfC17DebRig struct {
 	stopRet   map[string]bool
 	stopCall  []string
 	req       map[string]string
+	reqWhen   map[string]string // before-stop | after-stop: when refreshNow was called
 }
 
 func (r *vfC17DebRig) onEvent(point string, obj interface{}, s string, a int, err error) {
@@ -121,6 +123,13 @@ func (r *vfC17DebRig) exec(st vfC17DebStep, wait time.Duration) error {
 	case "refresh_now":
 		called := make(chan struct{})
 		go func() {
+			r.mu.Lock()
+			if len(r.stopCall) > 0 {
+				r.reqWhen[st.Who] = "after-stop"
+			} else {
+				r.reqWhen[st.Who] = "before-stop"
+			}
+			r.mu.Unlock()
 			ch := r.d.refreshNow()
 			r.mu.Lock()
 			r.req[st.Who] = "waiting"
@@ -212,14 +221,17 @@ type vfC17DebResult struct {
 	Req       map[string]string `json:"req"`
 	Stops     []string          `json:"stops"`
 	Dump      string            `json:"dump"`
+	// listeners never resolved although every stop() returned
+	Unanswered      []string `json:"unanswered"`
+	UnansweredClass string   `json:"unanswered_class"`
 }
 
 func vfC17RunDebSchedule(sch *vfC17DebSchedule, watchdog time.Duration) vfC17DebResult {
-	r := &vfC17DebRig{stopSend: map[string]chan struct{}{}, stopRet: map[string]bool{}, req: map[string]string{}}
+	r := &vfC17DebRig{stopSend: map[string]chan struct{}{}, stopRet: map[string]bool{}, req: map[string]string{}, reqWhen: map[string]string{}}
 	r.sc = vfNewScope()
 	r.sc.OnEvent = r.onEvent
 	r.d = vfC17NewDebouncer(r)
-	res := vfC17DebResult{N: sch.N, Origin: sch.Origin, Steps: len(sch.Steps), Req: map[string]string{}, Stops: []string{}}
+	res := vfC17DebResult{N: sch.N, Origin: sch.Origin, Steps: len(sch.Steps), Req: map[string]string{}, Stops: []string{}, Unanswered: []string{}}
 	for _, st := range sch.Steps {
 		if e := r.exec(st, 2*time.Second); e != nil {
 			res.Stuck = fmt.Sprintf("%s %s: %v", st.Cmd, st.Who, e)
@@ -263,17 +275,40 @@ func vfC17RunDebSchedule(sch *vfC17DebSchedule, watchdog time.Duration) vfC17Deb
 		}
 		return true
 	}))
-	// requesters get a moment to be answered (not a verdict, an observation)
-	vfC17Poll(50*time.Millisecond, r.locked(func() bool {
-		for _, v := range r.req {
-			if v == "waiting" {
-				return false
+	// every listener is watched: once every stop() has returned the flusher is gone, so each request -
+	// made before, during (refreshFn running) or after stop - must have been answered or refused
+	// (closed channel) within the watchdog
+	listeners := true
+	if ok {
+		listeners = vfC17Poll(watchdog, r.locked(func() bool {
+			for _, v := range r.req {
+				if v == "waiting" {
+					return false
+				}
 			}
-		}
-		return true
-	}))
+			return true
+		}))
+	}
 	r.mu.Lock()
 	res.Hang = !ok
+	if !listeners {
+		cls := map[string]bool{}
+		for k, v := range r.req {
+			if v == "waiting" {
+				res.Unanswered = append(res.Unanswered, k)
+				cls[r.reqWhen[k]] = true
+			}
+		}
+		sort.Strings(res.Unanswered)
+		switch {
+		case cls["before-stop"] && cls["after-stop"]:
+			res.UnansweredClass = "before-and-after-stop"
+		case cls["after-stop"]:
+			res.UnansweredClass = "requested-after-stop"
+		default:
+			res.UnansweredClass = "pending-at-stop"
+		}
+	}
 	res.Exited = r.exited
 	res.Refreshes = r.refreshes
 	for k, v := range r.req {
